@@ -7,6 +7,7 @@ import (
 	"regexp"
 	"strconv"
 	"strings"
+	"verifcheck/internal/core"
 
 	"golang.org/x/tools/go/ssa"
 
@@ -15,8 +16,8 @@ import (
 
 func init() {
 	Register(&Spec{
-		ID: "C13",
-		Explanation: "Decides four structural clauses of the packed codec in internal/packed: (R1) in the one-shot decoder, the count returned by a copy from the remaining input into a destination sized from an input byte reaches a comparison (a short literal run is detected, as io.ReadFull does in the streaming sibling); (R2) the number of words passed to allocWords is the constant 1 or a single input byte, and Reader.zeroes/literal are set only from a single byte or decremented: output grows by at most 255 words per count byte; (R3) Pack, Unpack and Reader.ReadWord all dispatch on exactly the tags 0x00 and 0xff, and each place where a count byte or a tagged byte is missing yields (or latches) io.ErrUnexpectedEOF; (R4) every index into the input in Unpack and ReadWord is bounded by an interval analysis of the index against a dominating length test. Does NOT decide unpack(pack(x)) = x, run-length limits as values, or equivalence of the two decoders.",
+		ID:           "C13",
+		Explanation:  "Decides four structural clauses of the packed codec in internal/packed: (R1) in the one-shot decoder, the count returned by a copy from the remaining input into a destination sized from an input byte reaches a comparison (a short literal run is detected, as io.ReadFull does in the streaming sibling); (R2) the number of words passed to allocWords is the constant 1 or a single input byte, and Reader.zeroes/literal are set only from a single byte or decremented: output grows by at most 255 words per count byte; (R3) Pack, Unpack and Reader.ReadWord all dispatch on exactly the tags 0x00 and 0xff, and each place where a count byte or a tagged byte is missing yields (or latches) io.ErrUnexpectedEOF; (R4) every index into the input in Unpack and ReadWord is bounded by an interval analysis of the index against a dominating length test. Does NOT decide unpack(pack(x)) = x, run-length limits as values, or equivalence of the two decoders.",
 		ExtraConfigs: true,
 		Run:          runC13,
 	})
@@ -27,7 +28,9 @@ func runC13(ctx *Ctx) {
 	ruleAmplification(ctx, "C13-R2")
 	rulePackedSiblings(ctx, "C13-R3")
 	ruleIndexBounds(ctx, "C13-R4", []string{"internal/packed.Unpack", "internal/packed.(*Reader).ReadWord"})
+	ruleNarrowingFits(ctx, "C13-R5", []string{"internal/packed.Pack"})
 	r := ctx.Rep
+	r.Floor("C13-R5", 2)
 	r.Floor("C13-R1", 1)
 	r.Floor("C13-R2", 5)
 	r.Floor("C13-R3", 7)
@@ -124,7 +127,7 @@ func ruleAmplification(ctx *Ctx, rule string) {
 				if st, ok := in.(*ssa.Store); ok {
 					if fa, ok := st.Addr.(*ssa.FieldAddr); ok {
 						fld := ssaq.FieldVar(fa)
-						if fld != nil && (fld.Name() == "zeroes" || fld.Name() == "literal") && fld.Pkg() != nil && strings.HasSuffix(fld.Pkg().Path(), "internal/packed") {
+						if fld != nil && (core.FieldName(fld) == "zeroes" || core.FieldName(fld) == "literal") && fld.Pkg() != nil && strings.HasSuffix(fld.Pkg().Path(), "internal/packed") {
 							k++
 							key := fmt.Sprintf("%s | Reader.%s = #%d", name, fld.Name(), k)
 							pos := q.Pos(ssaq.InstrPos(in))
@@ -163,8 +166,8 @@ func rulePackedSiblings(ctx *Ctx, rule string) {
 		for _, b := range f.Blocks {
 			for _, in := range b.Instrs {
 				bo, ok := in.(*ssa.BinOp)
-				if !ok || bo.Op != token.EQL {
-					continue
+				if !ok || (bo.Op != token.EQL && bo.Op != token.NEQ) {
+					continue // tag == K (switch case) or tag != K (guard clause)
 				}
 				if bt, ok := bo.X.Type().Underlying().(*types.Basic); !ok || bt.Kind() != types.Uint8 {
 					continue
@@ -220,7 +223,7 @@ func rulePackedSiblings(ctx *Ctx, rule string) {
 						v = x.Results[len(x.Results)-1]
 					}
 				case *ssa.Store:
-					if fa, ok := x.Addr.(*ssa.FieldAddr); ok && ssaq.FieldVar(fa) != nil && ssaq.FieldVar(fa).Name() == "err" {
+					if fa, ok := x.Addr.(*ssa.FieldAddr); ok && ssaq.FieldVar(fa) != nil && core.FieldName(ssaq.FieldVar(fa)) == "err" {
 						v = x.Val
 					}
 				}
@@ -249,9 +252,11 @@ func rulePackedSiblings(ctx *Ctx, rule string) {
 			}
 		}
 		key := name + " | truncation is io.ErrUnexpectedEOF"
-		want := 4
+		// (the number of such paths depends on how the two tag arms share code:
+		// at least one per decoder must exist, and none may yield io.EOF)
+		want := 2
 		if strings.HasSuffix(name, "ReadWord") {
-			want = 3
+			want = 1
 		}
 		if unexpected >= want && eof == 0 {
 			r.Ok(rule, key, q.Pos(f.Pos()), fmt.Sprintf("%d truncation paths return or latch io.ErrUnexpectedEOF; none yields io.EOF explicitly", unexpected))
